@@ -124,6 +124,7 @@ func (f *frame) instr(in ssa.Instruction, st *bstate) {
 			}
 			f.oblige(st, "cancellable", "blocking select has a cancellation case", goal, x.Pos())
 		}
+		selPres := f.selectBefore(x, st)
 		if x.Blocking {
 			// the goroutine may wait here: whatever other goroutines do meanwhile
 			f.havocAll(st, "select")
@@ -137,6 +138,7 @@ func (f *frame) instr(in ssa.Instruction, st *bstate) {
 			lo = -1
 		}
 		f.assume(st, fmt.Sprintf("(and (>= %s %d) (< %s %d))", tv.Tuple[0].T, lo, tv.Tuple[0].T, n))
+		f.selectAfter(x, tv.Tuple[0], selPres, st)
 	case *ssa.MakeChan:
 		f.setVal(x, f.freshRef(st, x.Name(), x.Type()))
 	case *ssa.MakeClosure:
